@@ -2,40 +2,81 @@ from vdriver import U
 
 PROPERTY = {
     "level": "proof",
-    "explanation": "",
-    "trusted_base": [],
-    "assumptions": [],
-    "not_applicable_clauses": [],
+    "explanation": "What is decided by comparisons, as Hoare triples over IEEE doubles on the real code (libm sqrt by an assumed contract). "
+                   "Trapezoid generator: ac == de is refused with 0 and the context is left untouched (all doubles); for all requests of magnitude <= 2^200: p0, p1 stored, v0 stored clamped "
+                   "to [-|vm|, |vm|], v1 stored clamped unless the plan recomputes it, 0 returned when the peak velocity squared is not positive, and the shape of each of the four plans "
+                   "(cruise: vc = +-|vm| with the sign of travel, ta >= 0 and final-blend duration >= 0 for feasible requests; acceleration-only: ta == td == t, pd == p1, vc == recorded v1 with the sign of travel; "
+                   "deceleration-only: ta == td == 0, pa == pd == p0, vc == clamped v0, pos(0) == p0, vel(0) == v0; triangular: ta == td, pd == pa, sign of vc), returned value == stored t. "
+                   "Trapezoid evaluators, ANY context with 0 <= ta <= td <= t: x < 0 holds (p0, v0, 0), x >= t holds (p1, v1), and pos/vel/acc select the same phase for the same x. "
+                   "Bell generator (bisection loop under a loop contract, so for every number of iterations): p0, p1 stored, v0, v1 stored clamped, jm stored as magnitude, returned value == stored t, "
+                   "t == ta + tv + td, tv >= 0, and in a no-cruise plan with both phases ta >= 2 taj and td >= 2 tdj; the loop terminates (the bit pattern of ac strictly decreases). "
+                   "Bell evaluators, ANY context with ordered segment boundaries: x < 0 holds (p0, v0, 0, 0), x >= t holds (p1, v1, 0), pos/vel/acc/jer select the same of the seven segments for the same x "
+                   "and mirror consistently for reverse travel; the jerk is +jm, -jm or 0 for every context and time.",
+    "trusted_base": ["cbmc 6.11.0 (IEEE-754 bit-precise float encoding, round-to-nearest); cvc5 for the float obligations, MiniSat for memory safety, loop termination and the enumerated companions",
+                     "goto-instrument --dfcc loop contract on the bisection loop of a_trajbell_gen",
+                     "libm sqrt by an assumed contract (stub in harness/traj.c): x >= 0 -> result >= 0, zero iff x is zero, finite iff x is finite; x < 0 or NaN -> NaN (in the two enumerated companion units additionally result^2 within relative 2^-40 of x)",
+                     "a_real = double, LP64"],
+    "assumptions": [
+        "NOT APPLICABLE (nonlinear real arithmetic with sqrt, outside the back end's reach): speed/acceleration/jerk within their limits at every instant, continuity of position/velocity/acceleration across phase boundaries, the motion ending at (p1, recorded v1), and non-negativity of the phase durations that are quotients of computed quantities (only the sign facts listed in the explanation are decided)",
+        "requests of magnitude <= 2^200 in the generator units (machine range; with infinities or NaN the peak-velocity formula is NaN and no plan shape is claimed)",
+        "evaluator units take the ordering of the phase times / segment boundaries (computed with the evaluators' own expressions, e.g. t - td + tdj) as hypothesis: that a generated plan satisfies it is one of the not-applicable clauses; the transitive closure of the ordering is assumed alongside and proved as lemma_order",
+        "trapezoid cruise plan: t >= td follows from the decided 'q = (v1 - vc)/de >= 0', the code line 't += td' (read, not mechanically checked: the equality of the two adders is not decided by cvc5 within 400 s) and lemma_add",
+        "bell generator: 'stored velocities inside the limit' is the decided 'stored == clamp(v)' plus lemma_sat; the vacuity guard of bell_gen is decided on one concrete admissible request (unit bell_gen_reach, same harness), because finding a model of the unrestricted harness takes ~5 min",
+        "two loop contracts for the same loop: invariant 'ac >= 0' for partial correctness (cvc5), 'ac >= 0 && ac <= 2^200' + decreases for termination (MiniSat; cvc5 does not decide the preservation of the upper bound inside this function within 300 s)",
+        "trap_gen_small / bell_gen_small: the same clauses on small integer requests (bounded, level B); their purpose is fault detection - on a changed library the unbounded units need a counter-model of nonlinear float constraints, which cvc5 does not find within the time limit (they become undecided, not violated)",
+        "at x == 0 with ta == 0 (resp. taj == 0) and at x == t the evaluators take the formula branch, whose value equals the boundary state only in real arithmetic: not claimed, except for the deceleration-only trapezoid plan",
+    ],
+    "not_applicable_clauses": ["speed, acceleration and jerk stay within their limits", "position/velocity/acceleration continuous across phase boundaries",
+                               "motion ends at the final position with the recorded final velocity", "all phase durations non-negative (decided only where a comparison or one sign argument suffices)"],
 }
 RP = {"native": True, "sources": ["a.c"]}
 NOPTR = ["--bounds-check", "--pointer-check", "--pointer-primitive-check"]
 def T(name, fns, **kw):
     """floating-point unit: the harness assertions, one cvc5 query each; the memory-safety obligations of the same harness are
     decided together by the SAT back end in the companion unit <name>_mem (they do not depend on float reasoning)"""
-    kw.setdefault("solver", "cvc5"); kw.setdefault("split", 8); kw.setdefault("timeout", 120); kw.setdefault("drop_checks", NOPTR)
+    kw.setdefault("solver", "cvc5"); kw.setdefault("split", 8); kw.setdefault("timeout", 300); kw.setdefault("drop_checks", NOPTR)
+    kw.setdefault("cbmc", ["--slice-formula"])   # one query per obligation: only the part of the equation it depends on
     return U(name, "traj.c", kw.pop("entry", "h_" + name), functions=fns, replay=RP, **kw)
 def M(name, fns, **kw):
     return U(name + "_mem", "traj.c", "h_" + name, functions=fns, replay=RP, only=["pointer", "bounds", "VERIF_CANARY"], cbmc=["--slice-formula"], timeout=300, min_obl=10, **kw)
-# the bisection loop of a_trajbell_gen: do { ... } while (ac > A_REAL_EPSILON); every path to the loop condition halves ac once,
-# so the bit pattern of the (positive, finite) double ac strictly decreases: termination; nothing else is needed at the loop head -
-# every clause of h_bell_gen is established inside the iteration that leaves the loop
-BELL_LOOP = {"a_trajbell_gen": [{"loop_id": 0, "expect": "} while (ac > A_REAL_EPSILON);",
-             "invariants": "ac >= 0 && ac <= 0x1p200",
-             "assigns": "tj, _2tj, _tmp, temp, ac, am, ctx->taj, ctx->tdj, ctx->ta, ctx->td, ctx->am, ctx->dm, ctx->vm",
-             "decreases": "*(const unsigned long *)&ac"}]}
+# the bisection loop of a_trajbell_gen: do { ... } while (ac > A_REAL_EPSILON);
+# partial correctness (unit bell_gen, cvc5): nothing is needed at the loop head - every clause of h_bell_gen is established inside the
+# iteration that leaves the loop; the frame (boundary data, jm, tv untouched by the loop) is the assigns clause.
+# termination (unit bell_gen_term, SAT back end, same harness): every path to the loop condition halves ac once, so the bit pattern of the
+# positive finite double ac strictly decreases.  (Two units because cvc5 does not decide 'ac <= 2^200 is preserved' inside this function
+# within 300 s, while MiniSat needs 60 s for it but cannot find a model for the reachability canary.)
+BELL_ASSIGNS = "tj, _2tj, _tmp, temp, ac, am, ctx->taj, ctx->tdj, ctx->ta, ctx->td, ctx->am, ctx->dm, ctx->vm"
+BELL_LOOP = {"a_trajbell_gen": [{"loop_id": 0, "expect": "} while (ac > A_REAL_EPSILON);", "invariants": "ac >= 0", "assigns": BELL_ASSIGNS}]}
+BELL_LOOP_T = {"a_trajbell_gen": [{"loop_id": 0, "expect": "} while (ac > A_REAL_EPSILON);", "invariants": "ac >= 0 && ac <= 0x1p200", "assigns": BELL_ASSIGNS,
+                                   "decreases": "*(const unsigned long *)&ac"}]}
 UNITS = [
     U("trap_gen_degenerate", "traj.c", "h_trap_gen_degenerate", functions=["a_trajtrap_gen"], replay=RP, key=["refused with 0", "plans nothing"], min_obl=2, timeout=120),
     T("trap_gen", ["a_trajtrap_gen", "a_trajtrap_pos", "a_trajtrap_vel"], key=["stored clamped", "deceleration-only plan starts from"], min_obl=10),
     M("trap_gen", ["a_trajtrap_gen"]),
     T("lemma_add", [], min_obl=1),
     T("lemma_order", [], min_obl=1),
+    T("lemma_sat", [], min_obl=1),
     T("trap_eval", ["a_trajtrap_pos", "a_trajtrap_vel", "a_trajtrap_acc"], key=["hold the initial state", "hold the final state", "cruise: velocity vc"], min_obl=10),
     M("trap_eval", ["a_trajtrap_pos", "a_trajtrap_vel", "a_trajtrap_acc"]),
     T("bell_hold", ["a_trajbell_pos", "a_trajbell_vel", "a_trajbell_acc", "a_trajbell_jer"], key=["holds the initial position", "holds the final position"], min_obl=11),
     M("bell_hold", ["a_trajbell_pos", "a_trajbell_vel", "a_trajbell_acc", "a_trajbell_jer"]),
     T("bell_jerk", ["a_trajbell_jer"], key=["jerk is \\+jm, -jm or 0"], min_obl=1),
-    T("bell_eval", ["a_trajbell_pos", "a_trajbell_vel", "a_trajbell_acc", "a_trajbell_jer"], key=["segment 1", "segment 7"], min_obl=27),
-    M("bell_eval", ["a_trajbell_pos", "a_trajbell_vel", "a_trajbell_acc", "a_trajbell_jer"]),
-    T("bell_gen", ["a_trajbell_gen"], key=["stored clamped", "ta >= 2 taj", "invariant after step", "decreases"], min_obl=10, timeout=300, split=12, cost=100, loops=BELL_LOOP),
-    M("bell_gen", ["a_trajbell_gen"], loops=BELL_LOOP, solver="cvc5"),
+] + [
+    T("bell_eval_seg%d" % k, ["a_trajbell_pos", "a_trajbell_vel", "a_trajbell_acc", "a_trajbell_jer"], entry="h_bell_eval", defines=["SEG=%d" % k], key=["segment %d" % k], min_obl=3, split=4)
+    for k in range(1, 8)
+] + [
+    U("bell_eval_mem", "traj.c", "h_bell_eval", functions=["a_trajbell_pos", "a_trajbell_vel", "a_trajbell_acc", "a_trajbell_jer"], replay=RP, defines=["SEG=%d" % k],
+      only=["pointer", "bounds", "VERIF_CANARY"], cbmc=["--slice-formula"], timeout=300, min_obl=10) for k in (4,)
+] + [
+    T("bell_gen", ["a_trajbell_gen"], key=["stored clamped", "ta >= 2 taj", "invariant after step"], min_obl=10, timeout=300, split=12, cost=100, loops=BELL_LOOP,
+      no_canary=True, defines=["BELL_NOCANARY"]),
+    T("bell_gen_reach", ["a_trajbell_gen"], entry="h_bell_gen", defines=["BELL_REACH"], loops=BELL_LOOP, only=["VERIF_CANARY"], split=None, timeout=300, min_obl=0),
+    U("bell_gen_term", "traj.c", "h_bell_gen", functions=["a_trajbell_gen"], replay=RP, loops=BELL_LOOP_T, only=["loop_invariant", "loop_decreases"], no_canary=True,
+      cbmc=["--slice-formula"], timeout=600, min_obl=4, key=["decreases", "invariant after step"], cost=90),
+    U("bell_gen_mem", "traj.c", "h_bell_gen", functions=["a_trajbell_gen"], replay=RP, loops=BELL_LOOP, only=["pointer", "bounds"], no_canary=True,
+      cbmc=["--slice-formula"], timeout=600, min_obl=10),
+    # bounded companions: same clauses, small integer requests (a violated clause is reported with a concrete request within seconds)
+    T("trap_gen_small", ["a_trajtrap_gen"], level="B", bound="integer requests |x| <= 2 (sqrt contract tightened to relative 2^-40)", defines=["DS=2", "SQRT_TIGHT"], solver=None, split=12, key=["deceleration-only plan starts from"], min_obl=10, timeout=300),
+    T("bell_gen_small", ["a_trajbell_gen"], level="B", bound="integer requests: limits jm, am, vm in 1..3, |p0| <= 1, |p1| <= 2, |v0|, |v1| <= 1; bisection loop unwound 3 iterations (longer searches cut); sqrt contract tightened to relative 2^-40", defines=["DS=3", "SQRT_TIGHT"], solver=None, split=12,
+      unwindset=[("a_trajbell_gen.0", 3)], key=["td >= 2 tdj"], min_obl=8, timeout=300),
 ]
